@@ -37,9 +37,9 @@ pub const LARGE: Sizes = Sizes {
 };
 pub const HUGE: Sizes = Sizes {
     max_n: 96,
-    max_m: 7,
-    max_p: 6,
-    max_s: 6,
+    max_m: 8,
+    max_p: 9,
+    max_s: 10,
 };
 
 /// swarm over problem sizes: mostly small, a tail of large, a thin tail of huge problems
@@ -531,16 +531,56 @@ pub fn base_scenario(
     noise_rel: f64,
 ) -> (Scenario, DataGen) {
     let width = pick_width(rng);
-    let model = gen_model(rng, kind, sizes.max_m, sizes.max_p);
+    // "corner" runs (4 %): rare options are drawn together rather than independently, so that
+    // their conjunctions (many right-hand sides AND a zero threshold AND a rank-deficient
+    // basis AND many parameters ...) are reached at a useful rate
+    let corner = rng.chance(0.04);
+    let sizes = if corner && rng.chance(0.7) { HUGE } else { sizes };
+    let mut model = if corner && rng.chance(0.5) {
+        // many nonlinear parameters (up to 20: size thresholds such as 8 or 16 columns)
+        let (mm, pp) = if rng.chance(0.4) { (10, 20) } else { (sizes.max_m.max(6), sizes.max_p.max(6)) };
+        let want = if pp == 20 { 12 } else { 6 };
+        let mut m = gen_model(rng, kind, mm, pp);
+        for _ in 0..12 {
+            if m.nparams >= want {
+                break;
+            }
+            m = gen_model(rng, kind, mm, pp);
+        }
+        m
+    } else {
+        gen_model(rng, kind, sizes.max_m, sizes.max_p)
+    };
+    if corner && rng.chance(0.5) && model.funcs.len() < 9 {
+        // exactly repeated basis function: rank-deficient at every alpha
+        let j = rng.usize_in(0, model.funcs.len() - 1);
+        let f = model.funcs[j].clone();
+        model.funcs.push(f);
+    }
     let m = model.m();
     let p = model.nparams;
-    let mrhs = rng.chance(0.35);
-    let s = if mrhs { rng.usize_in(1, sizes.max_s) } else { 1 };
+    let mrhs = if corner { rng.chance(0.7) } else { rng.chance(0.35) };
+    let s = if mrhs {
+        if corner && rng.chance(0.6) {
+            rng.usize_in(8, 10)
+        } else {
+            rng.usize_in(1, sizes.max_s)
+        }
+    } else {
+        1
+    };
     let n_lo = (m + p + 1).min(sizes.max_n);
-    let n = rng.usize_in(n_lo.max(2), sizes.max_n.max(n_lo + 1));
-    let wk = pick_weight_kind(rng);
+    let n = if rng.chance(if corner { 0.25 } else { 0.03 }) {
+        // square or wide basis matrix: as many basis functions as samples, or more
+        rng.usize_in(1, m.max(1))
+    } else {
+        rng.usize_in(n_lo.max(2), sizes.max_n.max(n_lo + 1))
+    };
+    let wk = if corner && rng.chance(0.3) { WeightKind::Constant } else { pick_weight_kind(rng) };
     let d = gen_data(rng, &model, width, n, s, noise_rel, start, wk);
-    let eps = match rng.below(8) {
+    let eps = match if corner && rng.chance(0.5) { 8 } else { rng.below(9) } {
+        // exactly zero: only exactly vanishing singular values are truncated
+        8 => Some(Fx(0.0)),
         0 => Some(Fx(rw(width, rng.log_uniform(-10.0, -3.0)))),
         1 => Some(Fx(rw(width, -rng.log_uniform(-10.0, -3.0)))),
         // coarse thresholds that truncate real singular values of the weighted basis
@@ -566,6 +606,7 @@ pub fn base_scenario(
         faults: vec![],
         sched: gen_sched(rng, parallel, false),
         heap_fill: *rng.pick(&[0x00u8, 0xFF, 0xA5, 0x7F, 0x80]),
+        builder_order: if rng.chance(0.5) { 0 } else { rng.below(6) as u8 },
     };
     (sc, d)
 }
